@@ -2,6 +2,7 @@ package gen
 
 import (
 	"bufio"
+	"encoding/json"
 	"go/ast"
 	"go/parser"
 	"go/token"
@@ -196,6 +197,28 @@ func loadCorpus(repo string) *Corpus {
 	for _, f := range files {
 		if b, err := os.ReadFile(f); err == nil {
 			addP(CorpusPattern{Src: string(b), From: "fuzz-corpus"})
+		}
+	}
+	// 6. the witnesses of the defects found so far (repaired or listed): mutation and
+	// re-combination around them is where their relatives are
+	vdir := os.Getenv("VERIF_DIR")
+	if vdir == "" {
+		vdir = "/verif"
+	}
+	if b, err := os.ReadFile(filepath.Join(vdir, "known_findings.json")); err == nil {
+		var ks []struct {
+			Witness struct {
+				Pattern string `json:"pattern"`
+				Options int    `json:"options"`
+				Input   string `json:"input"`
+			} `json:"witness"`
+		}
+		if json.Unmarshal(b, &ks) == nil {
+			for _, k := range ks {
+				if k.Witness.Pattern != "" {
+					addP(CorpusPattern{Src: k.Witness.Pattern, Opts: k.Witness.Options, Inputs: []string{k.Witness.Input}, From: "findings"})
+				}
+			}
 		}
 	}
 	return c
